@@ -6,6 +6,7 @@ package main
 // The semantics implemented here are those of coq/model/EngineBase.v (RefStore / RefStream / RefTimeout).
 
 import (
+	"sync/atomic"
 	"context"
 	"encoding/json"
 	"errors"
@@ -91,6 +92,7 @@ type sim struct {
 	nextTid int64
 	now     int64
 	blind bool // the record store ignores context cancellation (option blind=1)
+	openReceivers, openSenders atomic.Int64 // opened and not yet closed (C11: all closed once Stop has returned)
 	stamp   bool
 	// scheduling
 	roles    map[string]*proc
@@ -479,6 +481,7 @@ func (st simStreamer) NewSender(ctx context.Context, topic string) (workflow.Eve
 	if d != dOk {
 		return nil, dispErr(d)
 	}
+	s.openSenders.Add(1)
 	return &simSender{s: s, p: p, topic: topic}, nil
 }
 
@@ -502,6 +505,7 @@ func (sd *simSender) Send(ctx context.Context, foreignID string, statusType int,
 
 func (sd *simSender) Close() error {
 	s := sd.s
+	s.openSenders.Add(-1)
 	d := s.enter(sd.p, "SC", 0)
 	s.emit(sd.p, fmt.Sprintf("SC:=%s:", dispRes(d)))
 	return dispErr(d)
@@ -522,6 +526,7 @@ func (st simStreamer) NewReceiver(ctx context.Context, topic string, name string
 	if d != dOk {
 		return nil, dispErr(d)
 	}
+	s.openReceivers.Add(1)
 	return &simReceiver{s: s, p: p, topic: topic, name: name}, nil
 }
 
@@ -567,6 +572,7 @@ func (r *simReceiver) Recv(ctx context.Context) (*workflow.Event, workflow.Ack, 
 }
 
 func (r *simReceiver) Close() error {
+	r.s.openReceivers.Add(-1)
 	d := r.s.enter(r.p, "CL", 0)
 	r.s.emit(r.p, fmt.Sprintf("CL:=%s:", dispRes(d)))
 	return dispErr(d)
